@@ -17,6 +17,9 @@ open Rxn Driver Rxn.Align
 structure DSt where
   s : St
   keys : List Bytes := []
+  /-- checkpoint ids already written to the DKV in this deployment: the DKV looks checkpoints up by id, so the
+  contents of a second checkpoint with a reused id cannot be read back (both sides print `dup`) -/
+  ids : List Nat := []
 
 def insSorted (k : Bytes) : List Bytes → List Bytes
   | [] => [k]
@@ -29,7 +32,7 @@ def showEntry : Entry → String
 def showKV (kv : List (Bytes × Bytes)) : String :=
   joinWith "," ((kv.filter fun x => !x.2.isEmpty).map fun x => s!"{toHex x.1}={toHex x.2}")
 
-def showObs (keys : List Bytes) : Obs → Option String
+def showObs (keys : List Bytes) (ids : List Nat) : Obs → Option String
   | .aligned _ p => some (if p then "passed" else "parked")
   | .busy _ => some "busy"
   | .proc _ _ => none
@@ -41,6 +44,7 @@ def showObs (keys : List Bytes) : Obs → Option String
   | .reg _ id => some s!"reg:{id}"
   | .reject _ got have_ => some s!"reject:{got}:{have_}"
   | .snap id kv timers =>
+    if ids.contains id then some s!"S({id}|dup)" else
     some s!"S({id}|{showKV (keys.map fun k => (k, kv k))}|{joinWith "," (timers.map fun t => s!"{t.1}:{toHex t.2}")})"
   | .ack id => some s!"ack:{id}"
   | .released srs => some s!"rel:{joinWith "." (srs.map toString)}"
@@ -49,7 +53,13 @@ def showObs (keys : List Bytes) : Obs → Option String
   | .stopped => some "stopped"
   | .redeployed srs => some s!"redeployed:{joinWith "." (srs.map toString)}"
 
-def showAll (keys : List Bytes) (obs : List Obs) : List String := obs.filterMap (showObs keys)
+def showAll (keys : List Bytes) (ids : List Nat) (obs : List Obs) : List String := obs.filterMap (showObs keys ids)
+
+def newIds (ids : List Nat) (obs : List Obs) : List Nat :=
+  obs.foldl (fun acc o => match o with
+    | .snap id _ _ => id :: acc
+    | .redeployed _ => []
+    | _ => acc) ids
 
 def showState (s : St) : String :=
   let ck := match s.ckpt with
@@ -64,7 +74,7 @@ def showState (s : St) : String :=
 
 def doAct (st : DSt) (a : Act) : DSt × List String :=
   let r := step st.s a
-  ({ st with s := r.1 }, showAll st.keys r.2)
+  ({ st with s := r.1, ids := newIds st.ids r.2 }, showAll st.keys st.ids r.2)
 
 def step' (st : DSt) : List String → DSt × String
   | ["send", sr, "ev", k, p, t] =>
@@ -98,7 +108,7 @@ def step' (st : DSt) : List String → DSt × String
   | ["go", sr] =>
     let r := step st.s (.go (natOr sr))
     if r.2.isEmpty then (st, "noop")
-    else ({ st with s := r.1 }, joinWith " " ("ok" :: showAll st.keys r.2))
+    else ({ st with s := r.1, ids := newIds st.ids r.2 }, joinWith " " ("ok" :: showAll st.keys st.ids r.2))
   | ["tick"] =>
     let (st, o) := doAct st .tick
     (st, if o.isEmpty then "none" else joinWith " " o)
